@@ -493,6 +493,24 @@ fn scenarios(out: &mut Out, level: u64) {
                     ops.push(op("accept", 0));
                     ops.push(op("open", 0));
                     run(out, &base(ops));
+                    // (g) the sink itself is back-pressured (Framed write buffer above its high-water mark because the
+                    // wire is not writable and the application wrote > 128 KiB) while opens beyond the limit arrive:
+                    // the queued resets must still reach the remote once the wire drains (seeded mutant C26-1)
+                    if max_buf == 1 && chunk == 0 {
+                        let mut ops = vec![json!({"a": "budget", "n": 0}), op("open", 0)];
+                        for _ in 0..20 {
+                            ops.push(json!({"a": "write", "sid": 100, "len": 8192}));
+                        }
+                        for s in 0..(max_sub as u64 + 2) {
+                            ops.push(inj("open", s, 0));
+                        }
+                        ops.push(op("accept", 0));
+                        ops.push(op("accept", 0));
+                        ops.push(op("accept", 0));
+                        ops.push(json!({"a": "budget", "n": -1}));
+                        ops.push(op("accept", 0));
+                        run(out, &base(ops));
+                    }
                     // (f) zero-length data frames take buffer slots as well; remote reset after flood
                     let mut ops = vec![inj("open", 0, 0), inj("open", 1, 0), op("accept", 0)];
                     for i in 0..(max_buf + 2) {
